@@ -23,7 +23,7 @@ From Coq Require Import List ZArith Bool Lia Arith.
 Import ListNotations.
 From Goat Require Import Model.Client Model.Server Model.Sys Model.Status.
 From Goat Require Import Proofs.ClientBase Proofs.ClientInv Proofs.ClientLog Proofs.ClientProps Proofs.ClientNI.
-From Goat Require Import Proofs.SysC02c Proofs.SysC02d Proofs.StatusProofs.
+From Goat Require Import Proofs.SysLog Proofs.SysProofs Proofs.SysC01 Proofs.SysC02c Proofs.SysC02d Proofs.StatusProofs.
 Open Scope Z_scope.
 
 (* ---------- the client's classification, inverted ---------- *)
@@ -149,4 +149,40 @@ Proof.
   intros H Hn Hu Hret.
   destruct (C02_caller_eof_sound _ _ _ _ _ H Hn Hu Hret) as (h & kh & fr & Hkh & _ & Hid & Hr & Ht & (k2 & ->) & Htake).
   exists h, kh, k2. repeat split; assumption.
+Qed.
+
+(* ---------- the wire: what a call takes is what the server wrote for its id ---------- *)
+Theorem wire_carries_status pol ls s c e :
+  Sys.lrun pol Sys.init ls = Some s -> In (EvTake c e) (Client.log (cl s)) ->
+  (exists k, nth_error (calls (cl s)) c = Some k /\ k_id k = eid e) /\
+  exists fr, In (SvWrite fr) (Server.log (sv s)) /\ f_env fr = e /\ fid fr = eid e.
+Proof.
+  intros H Htake.
+  pose proof (proj_c_run _ _ _ _ H) as Hc.
+  destruct (C05_take_l _ _ Hc _ _ Htake) as (Hread & k & Hk & Hid & _).
+  split; [exists k; split; assumption|].
+  destruct (client_read_was_written _ _ _ _ _ H Hread) as (fr & Hw & Hfe).
+  exists fr. split; [exact Hw|]. split; [exact Hfe|]. unfold fid. rewrite Hfe. reflexivity.
+Qed.
+
+(* the non-OK status a stream caller observes, traced to the wire: in EVERY run of
+   the system, if RecvMsg returned the status st then the call took an envelope
+   with a trailer, without reset, carrying exactly st (non-OK), and that envelope
+   is one the SERVER WROTE for this call's id *)
+Theorem sys_status_from_server_frame pol ls s c k st :
+  Sys.lrun pol Sys.init ls = Some s ->
+  nth_error (calls (cl s)) c = Some k ->
+  In (EvRecvRet c (RErr (EStatus st))) (Client.log (cl s)) ->
+  exists fr, In (SvWrite fr) (Server.log (sv s)) /\ fid fr = k_id k /\
+             In (EvTake c (f_env fr)) (Client.log (cl s)) /\
+             estatus (f_env fr) = Some st /\ Client.st_code st <> 0 /\
+             etrl (f_env fr) <> None /\ erst (f_env fr) = false.
+Proof.
+  intros H Hn Hret.
+  pose proof (proj_c_run _ _ _ _ H) as Hc.
+  pose proof (client_recv_error_kinds _ _ Hc c k _ Hn Hret) as Hok. cbn [recv_error_ok] in Hok.
+  destruct Hok as (e & Htake & Hr & Ht & Hs & Hz).
+  destruct (wire_carries_status _ _ _ _ _ H Htake) as ((k' & Hk' & Hid) & fr & Hw & Hfe & Hfid).
+  rewrite Hn in Hk'. injection Hk' as <-.
+  exists fr. rewrite Hfe. repeat split; try assumption. congruence.
 Qed.
